@@ -10,6 +10,7 @@ from ..decide import require_instances, benign_unknown, Runs, need_ge0, need_eq0
 from ..report import Ob, PROVED, REFUTED, UNDECIDED, func_where, ASSUMPTIONS, Failure
 from ..model import norm_text, AnalysisError
 from . import common
+from .. import seqops
 from .tools import io_summaries, truthy
 from .c19 import ctor_of
 
@@ -380,6 +381,39 @@ def check(prog, res, tier):
     else:
         ob.verdict, ob.detail = PROVED, f'{len(cols)} columns, DE43 groups {sorted(groups)}'
     res.add(ob)
+
+    # ---- C20.c what the decoder hands to the csv writer for a decimal column is Decimal(<field text>) itself: its text form
+    # (what the csv cell shows) is the plain decimal numeral; normalize() / quantize() give another text form (1E+2)
+    if prog.has_func('iso8583._string_to_pytype'):
+        sfi = prog.func('iso8583._string_to_pytype')
+
+        def entry_dec(it):
+            e = common.generic_entry(it)
+            e.items['field_python_type'] = seqops.lit('decimal')
+            e.items['field_processor'] = ConstV(None)
+            v = it.sym_str('field_text', lo=1, charset='digits')
+            it.user.update(v=v)
+            names = [a.arg for a in sfi.node.args.args]
+            return it.call_function(sfi, [v, e] if names and names[0] != 'bit_config' else [e, v], {})
+        runs_dec = Runs(prog, entry_dec, hooks=common.HOOKS, res=res)
+
+        def chk_dec(p, mode):
+            if p.outcome != 'return':
+                return []
+            r = p.interp.resolve(p.value)
+            if not isinstance(r, SymV):
+                return [soft(f'a decimal field decodes to {r!r}')]
+            if r.kind == 'decimal' and isinstance(r.origin, tuple) and r.origin and r.origin[0] == 'Decimal':
+                return []
+            if isinstance(r.origin, tuple) and len(r.origin) >= 3 and r.origin[0] == 'method' and r.origin[2] in ('normalize', 'quantize',
+                                                                                                            'to_integral_value'):
+                return [definite(f'a decimal field decodes to Decimal(text).{r.origin[2]}(): numerically the same but another text form '
+                                 f'(str(Decimal("100").normalize()) is "1E+2") - the csv cell written differs from the cell read',
+                                 firm=True)]
+            return [soft(f'a decimal field decodes to {r!r}, not recognised as decimal.Decimal(<field text>)')]
+        res.add(runs_dec.judge('C20.c', 'a decimal column decodes to decimal.Decimal(<field text>) itself, whose text form is the plain '
+                                        'decimal numeral the csv cell had', func_where(sfi), 'decimal.Decimal(field_data)', chk_dec,
+                               rule='C20.c.decimal-text', unknown_ok=benign_unknown))
 
     # ---- C20.c typed columns accept text
     pfi = prog.func('iso8583._pytype_to_string')
